@@ -89,6 +89,11 @@ def okOp (s : St) (o : Op) : Bool := !(o.mutates && s.itr.isSome)
 
 def run (s : St) (ops : List Op) : St := ops.foldl (fun s o => (step s o).1) s
 
+/-- the value returned by every call of a history -/
+def trace (s : St) : List Op → List Ret
+  | [] => []
+  | o :: os => (step s o).2 :: trace (step s o).1 os
+
 def okRun : St → List Op → Bool
   | _, [] => true
   | s, o :: os => okOp s o && okRun (step s o).1 os
